@@ -71,6 +71,13 @@ def generate_yaml(seed, tier, st):
                 "with_period": chance(ir, 0.3),
                 "sign": pick(ir, [1, -1]),
             })
+            if v["unit"] in ("month", "year") and chance(ir, 0.3):
+                # the expectation is a {period: value} map with a second period, which
+                # is checked like the first - whatever the first one's verdict
+                t["outputs"][-1]["also"] = {"period": pick(ir, ["2018-03", "2019-01", "2017-12"] if v["unit"] == "month" else ["2019", "2017"]),
+                                            "place": weighted(ir, [("at", 3), ("inside", 1), ("beyond", 4)])}
+                if chance(ir, 0.6):
+                    t["outputs"][-1]["place"] = pick(ir, ["at", "inside"])
         for key in t["reforms"] + t["extensions"]:
             if key in EXTRA_VARS and chance(ir, 0.7):
                 t["outputs"].append({"var": EXTRA_VARS[key][0], "layout": "variable", "place": pick(ir, ["at", "beyond"]), "with_period": True, "sign": 1, "extra": EXTRA_VARS[key][1]})
@@ -344,6 +351,38 @@ def build_test(world: World, tbs, t):
         if undecidable:
             continue
         exp = [_plain(x) for x in exp]
+        second = None
+        if o.get("also") and not o.get("extra") and o["also"]["period"] != per:
+            try:
+                with warnings.catch_warnings():
+                    warnings.simplefilter("ignore")
+                    arr2 = sim.calculate(var, o["also"]["period"])
+                actual2 = [str(x) for x in arr2.decode_to_str()] if spec["type"] == "enum" else [render(spec, arr2[i]) for i in range(n)]
+                exp2, ok2 = [], True
+                for i in range(n):
+                    place = o["also"]["place"]
+                    if place == "beyond" and i != bad_index:
+                        place = "at"
+                    e, ok = place_value(spec, actual2[i], place, margin, target, default_margin)
+                    if ok is None:
+                        raise ValueError("undecidable")
+                    if e is None and ok is False:
+                        e = different(spec, world, actual2[i])
+                    exp2.append(e)
+                    ok2 = ok2 and ok
+                second = (o["also"]["period"], [_plain(x) for x in exp2], ok2)
+                explicit = True
+            except Exception:  # noqa: BLE001
+                second = None
+
+        def with_periods(x, i=None):
+            if not explicit:
+                return x
+            out = {per: x}
+            if second is not None:
+                out[second[0]] = second[1] if i is None else second[1][i]
+            return out
+
         layout = o["layout"]
         if layout == "instance":
             ids = [str(i) for i in pop.ids]
@@ -355,18 +394,25 @@ def build_test(world: World, tbs, t):
                 idx = [ids.index(i) for i in declared]
                 if o["place"] in ("beyond", "just_beyond") and bad_index not in idx:
                     ok_all = True
+                if second is not None and not second[2] and o["also"]["place"] == "beyond" and bad_index not in idx:
+                    second = (second[0], second[1], True)
                 for i in idx:
-                    val = {per: exp[i]} if explicit else exp[i]
-                    output.setdefault(pop.entity.plural, {}).setdefault(ids[i], {})[var] = val
+                    output.setdefault(pop.entity.plural, {}).setdefault(ids[i], {})[var] = with_periods(exp[i], i)
         if layout in ("variable", "entity"):
-            val = exp if n > 1 else exp[0]
-            val = {per: val} if explicit else val
+            if n > 1:
+                val = with_periods(exp)
+            else:
+                val = with_periods(exp[0], 0)
             if layout == "entity":
                 output.setdefault(pop.entity.key, {})[var] = val
             else:
                 output[var] = val
         should_pass = should_pass and ok_all
         details.append({"var": var, "type": spec["type"], "layout": layout, "place": o["place"], "period": per, "actual": [str(a) for a in actual], "expected": [str(e) for e in exp], "ok": ok_all})
+        if second is not None:
+            should_pass = should_pass and second[2]
+            details.append({"var": var, "type": spec["type"], "layout": layout, "place": o["also"]["place"], "period": second[0], "actual": [str(a) for a in actual2],
+                            "expected": [str(e) for e in second[1]], "ok": second[2], "second_period": True})
     if not output:
         return None
     item = {"name": t["name"], "period": t["period"], "input": doc, "output": output}
